@@ -59,6 +59,10 @@ backslash starts an escape sequence, which is not modelled (answered `none`; the
 def SpeedUnit.fromStr (s : String) : Option SpeedUnit :=
   if s.toList.any (fun c => c == '"' || c == '\\' || c.toNat < 32) then none else SpeedUnit.ofName? s
 
+/-- `from_str` of the other unit families: the same `string_deserialize` -/
+def unitFromStr {β : Type} (ofName? : String → Option β) (s : String) : Option β :=
+  if s.toList.any (fun c => c == '"' || c == '\\' || c.toNat < 32) then none else ofName? s
+
 /-- `SpeedUnit::max_american_highway_speed` -/
 def SpeedUnit.maxHighwaySpeed {α : Type} [Lit α] (u : SpeedUnit) : α :=
   Lit.lit u.maxAmericanHighwaySpeed.1 u.maxAmericanHighwaySpeed.2
